@@ -6,6 +6,7 @@ from typing import Any, Dict, List
 
 from harness.extract import action_mask as x_mask
 from harness.extract import request_core as x_core
+from harness.extract import request_schema as x_schema
 from harness.extract import request_validators as x_valid
 from harness.lib import scen
 from harness.lib.core import Ctx, lean_lock
@@ -373,6 +374,7 @@ def run(ctx: Ctx):
     with lean_lock():
         ctx.extract("RequestCore", x_core.emit)
         ctx.extract("ActionMask", x_mask.emit)
+        ctx.extract(x_schema.GEN_NAME, x_schema.emit)  # Props/C11Memo: on which edges of the tree those rules stand
         ctx.extract(x_valid.GEN_NAME, x_valid.emit)   # Props/C11Memo: which translated rules read their options
         ctx.prove(MODULES, exes=[EXE], leanchecker=ctx.thorough)
     ctx.cov["rule"] = ("(a) every route / mutation / action request of live trees at random states: real check_valid vs model checkValid and vs "
